@@ -42,7 +42,7 @@ TEXT = {
                 "message keys injective, stored counter monotone at every put, no race report in pkg/secretstore. Two further units: fault enumeration over the datastore accesses of a send workload (the k-th access fails once, for every k: the envelopes released to callers must still have distinct counters and open at the receiver) "
                 "and bursts of 16 concurrent first sends on a store instance freshly opened on an existing datastore (restart), 400-4000 rounds per group type under the race detector.",
         "note": "Schedules are sampled (real parallelism + injected delays), not enumerated; a race report in the anchored files is treated as a violation witness.",
-        "technique": "runtime monitoring: race detector + recorded client-boundary history checked by porcupine and a monotonicity hook on the datastore",
+        "technique": "runtime monitoring: race detector + recorded client-boundary history checked by porcupine, a monotonicity hook on the datastore, and fault injection by enumeration of single datastore faults during sends",
     },
     "C10": {
         "text": "Fault enumeration: scripted and seeded random workloads are recorded fault-free on a logging datastore; every mutation (put, delete, atomic batch commit) of each recording is then taken as a crash point: "
@@ -55,7 +55,7 @@ TEXT = {
                 "random multi-member groups check member/device key derivation across devices and restarts; export/import reproduction; a catalogue of refused imports (used store after each kind of first use, RSA/Secp256k1/ECDSA, truncated/garbage/equal keys; a refused import must neither change an existing key nor install an imported one); "
                 "concurrent first use of a fresh store with seeded delays around every datastore access (all callers must be handed the identity the store keeps).",
         "note": "Independence is observed as absence of collisions over the sample, not proved. Swapped blobs are outside the statement.",
-        "technique": "runtime monitoring: symmetry/independence/refusal oracle over random key material on real secret stores",
+        "technique": "runtime monitoring: symmetry/independence/refusal oracle over random key material on real secret stores, concurrent first use under injected delays, fault injection by enumeration of single read failures",
     },
     "C14": {
         "text": "Exploration: sessions mixing push and log delivery of the same messages in all six delivery orders, several senders and groups, key and reference windows of 2/5/100; an executable model (C02 window + reference window around the last message seen) "
@@ -82,7 +82,7 @@ TEXT = {
                 "observer replay, reflection, a man in the middle applying bit flips/truncation/oversize/duplication/drop to every frame, foreign identity key types, negative acknowledge. The oracle tracks which private keys the peer held in the session. "
                 "A second unit drives contactRequestsManager.handleIncomingRequest on a byte pipe: after a real handshake as K the peer announces a contact (own key, other keys, malformed keys/seeds, oversize); the account log may only record K.",
         "note": "Attacks outside the catalogue are outside the evidence; the outgoing side of the manager needs a libp2p stream to a dialled peer and is only exercised through the handshake functions.",
-        "technique": "runtime monitoring: scripted adversary + authentication oracle ('reported key => private half held in this session')",
+        "technique": "runtime monitoring: scripted adversary (incl. keyless relay) + authentication oracle ('reported key => private half held in this session, for a request addressed to this responder')",
     },
     "C07": {
         "text": "Exploration, exhaustive for small bounds: every sequence of the seven contact operations on one contact up to length 4 (5 in thorough), sequences on two contacts (every sequence of length 4 in thorough) and long random sequences with malformed arguments are executed on real account-group stores; "
@@ -113,7 +113,7 @@ TEXT = {
         "text": "Exploration: every single-bit flip, field removal, group-type substitution and cross-group field swap of random invitations, plus invitations forged from nothing but the public replication descriptor, is decoded, classified (protected part changed or not) and handed to the real GroupJoin on an account group; "
                 "the identity used after an honest join is compared with the account identity; replication descriptors of groups of all types are searched for the secret, tried against every metadata envelope, message header and payload of a session of the full group, and compared by access-controller and log address.",
         "note": "Manipulations of parts the statement does not protect (link key signature, extra fields) are run for no-panic only. A second unit enumerates datastore faults while the identity for a joined group is created: the account must never fall back to its account-level keys.",
-        "technique": "runtime monitoring: accept/refuse oracle over an exhaustive single-bit and field manipulation catalogue; descriptor-opens-nothing oracle",
+        "technique": "runtime monitoring: accept/refuse oracle over an exhaustive single-bit and field manipulation catalogue; descriptor-opens-nothing oracle; fault injection (enumerated datastore faults) while a group identity is created",
     },
     "C15": {
         "text": "Exploration: random operation sequences against a reference FIFO / counter-ordered multiset (sequential contract); on sync-point-instrumented queue sources, scenarios of 1-2 producers x 1-3 items, a consumer and optional cancellation run un-perturbed, under profile jitter, under EVERY pair plan "
@@ -132,7 +132,7 @@ TEXT = {
                 "in seeded sequences interleaved with activation/deactivation of the account group and other groups; a second unit sweeps every method one field at a time around a baseline request that is valid for the live service (unset, edge bytes, every harvested value and its corrupted copy, every defined and three undefined enum numbers, every known invitation under every group type), "
                 "with the account group active and again after its deactivation; the exported decode/decrypt helpers get random and malformed inputs. Only a panic (or a dead process) counts.",
         "note": "In-process calls: a recovered panic is the observation. Calls blocked on external services are cancelled after 3 s.",
-        "technique": "runtime monitoring: reflection-driven request fuzzing of all RPC handlers in every activation state with panic capture",
+        "technique": "runtime monitoring: reflection-driven request fuzzing plus one-field-at-a-time and pairwise sweeps around valid baselines of all RPC handlers in both activation states, with panic capture",
     },
     "C20": {
         "text": "Exploration: seeded account histories on a real service (in every other account with logs forked into two heads, as concurrent writers leave them) are exported; the archive is parsed independently (key files, entries re-hashed against their file names, heads); it is restored into a fresh node and every log is compared (entry CIDs, heads, derived state) before anything is written there, "
